@@ -15,6 +15,7 @@ import (
 	"go/constant"
 	"go/token"
 	"go/types"
+	"sort"
 	"strings"
 
 	"golang.org/x/tools/go/ssa"
@@ -28,7 +29,30 @@ type c18Frame struct {
 	env    c18Env
 	chain  []*ssa.Call
 	depth  int
+	// unrolled walks over literal slices: the current value of the index phi of each enclosing walk;
+	// base = the frame this is an iteration of (nil for an ordinary frame)
+	iter map[*ssa.Phi]int64
+	base *c18Frame
 }
+
+// rootF: the ordinary frame an iteration frame belongs to.
+func (fr *c18Frame) rootF() *c18Frame {
+	if fr.base != nil {
+		return fr.base
+	}
+	return fr
+}
+
+// c18WalkInfo describes a counted loop over a literal slice (`for _, x := range []T{a, b}`,
+// `for i := 0; i < len(lit)-1; i++ { … lit[i] … }`) that the graph unrolls.
+type c18WalkInfo struct {
+	phi    *ssa.Phi
+	init   int64 // value of the phi on entry
+	ifi    *ssa.If
+	blocks map[*ssa.BasicBlock]bool // the loop
+}
+
+const c18MaxUnroll = 8
 
 func (fr *c18Frame) path(p *Prog) string {
 	if fr.parent == nil {
@@ -80,12 +104,13 @@ type c18Graph struct {
 	funcFields map[string]*ssa.Function
 	// interface-typed construction-time fields and the one concrete type they hold
 	ifaceFields map[string]types.Type
+	walks       map[*ssa.Function]map[*ssa.BasicBlock]*c18WalkInfo
 }
 
 // target: the function a call instruction runs: the static callee, or the one function a
 // construction-time func field holds. dynamic = a call whose target is not known (interface
 // method calls excluded: see dynamicNote).
-func (g *c18Graph) target(ci ssa.CallInstruction) (f *ssa.Function, dynamic bool) {
+func (g *c18Graph) target(fr *c18Frame, ci ssa.CallInstruction) (f *ssa.Function, dynamic bool) {
 	if f := staticCallee(ci); f != nil {
 		return f, false
 	}
@@ -103,12 +128,309 @@ func (g *c18Graph) target(ci ssa.CallInstruction) (f *ssa.Function, dynamic bool
 	if _, isBuiltin := cc.Value.(*ssa.Builtin); isBuiltin {
 		return nil, false
 	}
-	if id, _, ok := fieldOfValue(cc.Value); ok {
-		if t := g.funcFields[id.String()]; t != nil {
-			return t, false
-		}
+	if t := g.resolveFunc(fr, cc.Value, 0); t != nil {
+		return t, false
 	}
 	return nil, true
+}
+
+// resolveFunc: the one function a function-typed value denotes in frame fr: a function or closure
+// literal, a construction-time func field, a parameter bound to such a value at the call site of the
+// frame (callback helpers like withLock(func(){…})), an element of a literal slice at a known
+// index (unrolled walk), or a local variable cell holding one of these.
+func (g *c18Graph) resolveFunc(fr *c18Frame, v ssa.Value, depth int) *ssa.Function {
+	if depth > 6 || fr == nil {
+		return nil
+	}
+	switch x := v.(type) {
+	case *ssa.Function:
+		return origin(x)
+	case *ssa.MakeClosure:
+		f, _ := x.Fn.(*ssa.Function)
+		return f
+	case *ssa.ChangeType:
+		return g.resolveFunc(fr, x.X, depth+1)
+	case *ssa.Parameter:
+		if fr.site == nil || fr.parent == nil {
+			return nil
+		}
+		args := fr.site.Call.Args
+		if fr.site.Call.IsInvoke() {
+			args = append([]ssa.Value{fr.site.Call.Value}, args...)
+		}
+		for i, pa := range fr.fn.Params {
+			if pa == x && i < len(args) {
+				return g.resolveFunc(fr.parent, args[i], depth+1)
+			}
+		}
+	case *ssa.FreeVar:
+		if b := resolveFreeVar(x); b != nil {
+			return g.resolveFunc(fr, b, depth+1)
+		}
+	case *ssa.UnOp:
+		if x.Op != token.MUL {
+			return nil
+		}
+		if id, _, ok := fieldOfValue(x); ok {
+			if t := g.funcFields[id.String()]; t != nil {
+				return t
+			}
+		}
+		if el := c18LiteralElem(x, fr.iter); el != nil {
+			return g.resolveFunc(fr, el, depth+1)
+		}
+		if fv, ok := x.X.(*ssa.FreeVar); ok {
+			if cell, ok := resolveFreeVar(fv).(*ssa.Alloc); ok {
+				return g.resolveFunc(fr, c18CellValue(cell), depth+1)
+			}
+		}
+		if cell, ok := x.X.(*ssa.Alloc); ok {
+			return g.resolveFunc(fr, c18CellValue(cell), depth+1)
+		}
+		if r := c18Root(x); r != ssa.Value(x) {
+			return g.resolveFunc(fr, r, depth+1)
+		}
+	}
+	return nil
+}
+
+// c18CellValue: the one value ever stored into a local variable cell (nil if none or several).
+func c18CellValue(cell *ssa.Alloc) ssa.Value {
+	var val ssa.Value
+	for _, r := range refs(cell) {
+		if st, ok := r.(*ssa.Store); ok && st.Addr == ssa.Value(cell) {
+			if val != nil {
+				return nil
+			}
+			val = st.Val
+		}
+	}
+	return val
+}
+
+// c18ConstIndex evaluates an index expression under the bindings of the unrolled walks.
+func c18ConstIndex(v ssa.Value, iter map[*ssa.Phi]int64) (int64, bool) {
+	switch x := v.(type) {
+	case *ssa.Const:
+		if x.Value != nil {
+			return x.Int64(), true
+		}
+	case *ssa.Phi:
+		k, ok := iter[x]
+		return k, ok
+	case *ssa.BinOp:
+		if x.Op == token.ADD {
+			a, ok1 := c18ConstIndex(x.X, iter)
+			b, ok2 := c18ConstIndex(x.Y, iter)
+			return a + b, ok1 && ok2
+		}
+	}
+	return 0, false
+}
+
+// c18LiteralElem: v = lit[i] where lit is a slice literal and i is known: the element value.
+func c18LiteralElem(v ssa.Value, iter map[*ssa.Phi]int64) ssa.Value {
+	u, ok := v.(*ssa.UnOp)
+	if !ok || u.Op != token.MUL {
+		return nil
+	}
+	ia, ok := u.X.(*ssa.IndexAddr)
+	if !ok {
+		return nil
+	}
+	els, ok := c18Varargs(ia.X)
+	if !ok {
+		return nil
+	}
+	k, ok := c18ConstExpr(ia.Index, iter)
+	if !ok || k < 0 || int(k) >= len(els) {
+		return nil
+	}
+	return els[k]
+}
+
+// c18ConstExpr evaluates an integer expression under the bindings of the unrolled loops; len of a
+// literal slice is its number of elements.
+func c18ConstExpr(v ssa.Value, iter map[*ssa.Phi]int64) (int64, bool) {
+	switch x := v.(type) {
+	case *ssa.Const:
+		if x.Value != nil && x.Value.Kind() == constant.Int {
+			return x.Int64(), true
+		}
+	case *ssa.Phi:
+		k, ok := iter[x]
+		return k, ok
+	case *ssa.BinOp:
+		a, ok1 := c18ConstExpr(x.X, iter)
+		b, ok2 := c18ConstExpr(x.Y, iter)
+		if !ok1 || !ok2 {
+			return 0, false
+		}
+		switch x.Op {
+		case token.ADD:
+			return a + b, true
+		case token.SUB:
+			return a - b, true
+		case token.MUL:
+			return a * b, true
+		}
+	case *ssa.Call:
+		if builtinName(x) == "len" && len(x.Call.Args) == 1 {
+			if els, ok := c18Varargs(x.Call.Args[0]); ok {
+				return int64(len(els)), true
+			}
+		}
+	}
+	return 0, false
+}
+
+// c18EvalCond evaluates an integer comparison under the bindings.
+func c18EvalCond(cond ssa.Value, iter map[*ssa.Phi]int64) (truth, ok bool) {
+	cmp, ok := decodeCond(cond, true)
+	if !ok {
+		return false, false
+	}
+	a, ok1 := c18ConstExpr(cmp.X, iter)
+	b, ok2 := c18ConstExpr(cmp.Y, iter)
+	if !ok1 || !ok2 {
+		return false, false
+	}
+	switch cmp.Op {
+	case token.LSS:
+		return a < b, true
+	case token.LEQ:
+		return a <= b, true
+	case token.GTR:
+		return a > b, true
+	case token.GEQ:
+		return a >= b, true
+	case token.EQL:
+		return a == b, true
+	case token.NEQ:
+		return a != b, true
+	}
+	return false, false
+}
+
+// walksOf: the counted loops over literal slices in fn, by header block.
+func (g *c18Graph) walksOf(fn *ssa.Function) map[*ssa.BasicBlock]*c18WalkInfo {
+	if w, ok := g.walks[fn]; ok {
+		return w
+	}
+	out := map[*ssa.BasicBlock]*c18WalkInfo{}
+	for _, b := range fn.Blocks {
+		if len(b.Instrs) == 0 {
+			continue
+		}
+		ifi, ok := b.Instrs[len(b.Instrs)-1].(*ssa.If)
+		if !ok {
+			continue
+		}
+		for _, in := range b.Instrs {
+			phi, ok := in.(*ssa.Phi)
+			if !ok {
+				break
+			}
+			// edges: one constant start value, every other edge phi+1
+			init, hasInit, hasStep, good := int64(0), false, false, true
+			for _, e := range phi.Edges {
+				if k, ok := e.(*ssa.Const); ok && k.Value != nil && k.Value.Kind() == constant.Int {
+					if hasInit && k.Int64() != init {
+						good = false
+					}
+					init, hasInit = k.Int64(), true
+					continue
+				}
+				if bo, ok := e.(*ssa.BinOp); ok && bo.Op == token.ADD && bo.X == ssa.Value(phi) {
+					if k, ok := bo.Y.(*ssa.Const); ok && k.Value != nil && k.Int64() == 1 {
+						hasStep = true
+						continue
+					}
+				}
+				good = false
+			}
+			if !good || !hasInit || !hasStep {
+				continue
+			}
+			// the test must be decidable from the index, and the loop must index a small literal slice by it
+			probe := map[*ssa.Phi]int64{phi: init}
+			if _, ok := c18EvalCond(ifi.Cond, probe); !ok {
+				continue
+			}
+			blocks := c18LoopBlocks(b)
+			uses := false
+			for lb := range blocks {
+				for _, li := range lb.Instrs {
+					if ia, ok := li.(*ssa.IndexAddr); ok {
+						if els, ok := c18Varargs(ia.X); ok && len(els) <= c18MaxUnroll {
+							if _, ok := c18ConstExpr(ia.Index, probe); ok {
+								uses = true
+							}
+						}
+					}
+				}
+			}
+			if uses {
+				out[b] = &c18WalkInfo{phi: phi, init: init, ifi: ifi, blocks: blocks}
+			}
+		}
+	}
+	g.walks[fn] = out
+	return out
+}
+
+// iterFrame: the frame of one iteration of an unrolled walk.
+func (g *c18Graph) iterFrame(fr *c18Frame, iter map[*ssa.Phi]int64) *c18Frame {
+	base := fr.rootF()
+	if len(iter) == 0 {
+		return base
+	}
+	var ks []string
+	for ph, k := range iter {
+		ks = append(ks, fmt.Sprintf("%p=%d", ph, k))
+	}
+	sort.Strings(ks)
+	key := fmt.Sprintf("iter|%d|%s", base.id, strings.Join(ks, ","))
+	if c, ok := g.frameOf[key]; ok {
+		return c
+	}
+	c := &c18Frame{id: len(g.frames), fn: base.fn, parent: base.parent, site: base.site, env: base.env, chain: base.chain, depth: base.depth, iter: iter, base: base}
+	g.frames = append(g.frames, c)
+	g.frameOf[key] = c
+	return c
+}
+
+// enterBlock: the frame in which block b is executed when control arrives from frame fr.
+func (g *c18Graph) enterBlock(fr *c18Frame, b *ssa.BasicBlock) *c18Frame {
+	walks := g.walksOf(fr.fn)
+	iter := map[*ssa.Phi]int64{}
+	changed := false
+	for ph, v := range fr.iter {
+		// an index stays bound only inside its loop
+		inside := false
+		for _, w := range walks {
+			if w.phi == ph && w.blocks[b] {
+				inside = true
+			}
+		}
+		if inside {
+			iter[ph] = v
+		} else {
+			changed = true
+		}
+	}
+	if w := walks[b]; w != nil {
+		if cur, ok := iter[w.phi]; ok {
+			iter[w.phi] = cur + 1 // back edge
+		} else {
+			iter[w.phi] = w.init
+		}
+		changed = true
+	}
+	if !changed {
+		return fr
+	}
+	return g.iterFrame(fr, iter)
 }
 
 func (g *c18Graph) closureWrites(fn *ssa.Function) map[*ssa.Alloc]bool {
@@ -123,7 +445,7 @@ func (g *c18Graph) closureWrites(fn *ssa.Function) map[*ssa.Alloc]bool {
 const c18MaxDepth = 6
 
 func c18BuildGraph(p *Prog, tt *c18Terms, fn *ssa.Function, relevant func(*ssa.Function) bool, funcFields map[string]*ssa.Function, ifaceFields map[string]types.Type) *c18Graph {
-	g := &c18Graph{funcFields: funcFields, ifaceFields: ifaceFields, p: p, tt: tt, index: map[string]*c18Node{}, frameOf: map[string]*c18Frame{}, relevant: relevant, cw: map[*ssa.Function]map[*ssa.Alloc]bool{}}
+	g := &c18Graph{walks: map[*ssa.Function]map[*ssa.BasicBlock]*c18WalkInfo{}, funcFields: funcFields, ifaceFields: ifaceFields, p: p, tt: tt, index: map[string]*c18Node{}, frameOf: map[string]*c18Frame{}, relevant: relevant, cw: map[*ssa.Function]map[*ssa.Alloc]bool{}}
 	g.root = &c18Frame{fn: fn, env: c18Env{}}
 	g.frames = append(g.frames, g.root)
 	if len(fn.Blocks) == 0 {
@@ -172,8 +494,8 @@ func (g *c18Graph) edge(from, to *c18Node, branch int) *c18Edge {
 
 // callee returns the function a call expands to, or nil. Synthetic bound-method
 // wrappers and thunks are looked through.
-func (g *c18Graph) callee(call *ssa.Call) *ssa.Function {
-	f, _ := g.target(call)
+func (g *c18Graph) callee(fr *c18Frame, call *ssa.Call) *ssa.Function {
+	f, _ := g.target(fr, call)
 	if f == nil || len(f.Blocks) == 0 {
 		return nil
 	}
@@ -184,6 +506,19 @@ func (g *c18Graph) callee(call *ssa.Call) *ssa.Function {
 		return f
 	}
 	return nil
+}
+
+// argRelevant: a function-typed argument of the call denotes a function that matters (callback helper).
+func (g *c18Graph) argRelevant(fr *c18Frame, call *ssa.Call) bool {
+	for _, a := range call.Call.Args {
+		if _, isFn := a.Type().Underlying().(*types.Signature); !isFn {
+			continue
+		}
+		if t := g.resolveFunc(fr, a, 0); t != nil && len(t.Blocks) > 0 && g.isRelevant(t) {
+			return true
+		}
+	}
+	return false
 }
 
 func (g *c18Graph) isRelevant(f *ssa.Function) bool {
@@ -278,7 +613,7 @@ func (g *c18Graph) expand(n *c18Node) {
 			next(n, n.tagCall, n.tagNil)
 			return
 		}
-		if f := g.callee(in); f != nil && g.isRelevant(f) {
+		if f := g.callee(fr, in); f != nil && (g.isRelevant(f) || g.argRelevant(fr, in)) {
 			if g.inChain(fr, f) || fr.depth >= c18MaxDepth {
 				g.unknown = append(g.unknown, "call to "+FuncName(g.p, f)+" (recursive or nested too deeply to expand)")
 			} else {
@@ -289,9 +624,29 @@ func (g *c18Graph) expand(n *c18Node) {
 		}
 		next(n, n.tagCall, n.tagNil)
 	case *ssa.Jump:
-		g.edge(n, g.node(fr, blk.Succs[0].Instrs[0], false, n.tagCall, n.tagNil), -1)
+		g.edge(n, g.node(g.enterBlock(fr, blk.Succs[0]), blk.Succs[0].Instrs[0], false, n.tagCall, n.tagNil), -1)
 	case *ssa.If:
+		// header test of an unrolled loop: the index is known, only one branch is feasible
+		only := -1
+		var w *c18WalkInfo
+		if x := g.walksOf(fr.fn)[blk]; x != nil && x.ifi == in {
+			if k, ok := fr.iter[x.phi]; ok {
+				w = x
+				if truth, ok := c18EvalCond(in.Cond, fr.iter); ok && k <= c18MaxUnroll+2 {
+					only = 1
+					if truth {
+						only = 0
+					}
+				} else {
+					g.unknown = append(g.unknown, "a counted loop over a literal slice that could not be unrolled")
+					return
+				}
+			}
+		}
 		for b := 0; b < 2; b++ {
+			if only >= 0 && b != only {
+				continue
+			}
 			cmp, ok := decodeCond(in.Cond, b == 0)
 			var val ssa.Value
 			isNil := false
@@ -311,7 +666,19 @@ func (g *c18Graph) expand(n *c18Node) {
 				}
 				tc, tn = nil, false // consumed
 			}
-			e := g.edge(n, g.node(fr, blk.Succs[b].Instrs[0], false, tc, tn), b)
+			tf := fr
+			if w != nil && !w.blocks[blk.Succs[b]] {
+				// leaving the unrolled loop: its index is no longer bound
+				rest := map[*ssa.Phi]int64{}
+				for ph, v := range fr.iter {
+					if ph != w.phi {
+						rest[ph] = v
+					}
+				}
+				tf = g.iterFrame(fr, rest)
+			}
+			tf = g.enterBlock(tf, blk.Succs[b])
+			e := g.edge(n, g.node(tf, blk.Succs[b].Instrs[0], false, tc, tn), b)
 			if val != nil {
 				e.hasFact, e.factFr, e.factVal, e.factNil = true, fr, val, isNil
 			}
